@@ -364,3 +364,15 @@ Proof.
   pose proof (mink_boost p p v Hv) as Hm. rewrite !mink_split in Hm. fold (norm2_3 (vect (boost p v))) in Hm.
   fold (norm2_3 (vect p)) in Hm. destruct Ht. lra.
 Qed.
+
+(* ------------------------------------------------------------------ branch lemmas (used by the
+   correspondence cases to select the branch the implementation took) *)
+Lemma cross_unit_main a b : eps <= norm3 (cross3 a b) -> cross_unit a b = unit3 (cross3 a b).
+Proof. intros H. unfold cross_unit. destruct (Rlt_dec (norm3 (cross3 a b)) eps); [lra|reflexivity]. Qed.
+Lemma cross_unit_fallback a b : norm3 (cross3 a b) < eps ->
+  cross_unit a b = unit3 (cross3 a (V3 (1 + vx b) (1 + vy b) (1 + vz b))).
+Proof. intros H. unfold cross_unit. destruct (Rlt_dec (norm3 (cross3 a b)) eps); [reflexivity|lra]. Qed.
+Lemma gamma2_of_main b2 : eps < b2 -> gamma2_of b2 = (gamma_of b2 - 1) / b2.
+Proof. intros H. unfold gamma2_of. destruct (Rlt_dec eps b2); [reflexivity|lra]. Qed.
+Lemma gamma2_of_guard b2 : b2 <= eps -> gamma2_of b2 = 0.
+Proof. intros H. unfold gamma2_of. destruct (Rlt_dec eps b2); [lra|reflexivity]. Qed.
